@@ -990,6 +990,7 @@ def full_case(draw, op, need_grad=True):
     c["scale"] = draw(st.sampled_from(list(op.scales)))
     c["wrap"] = draw(st.booleans())
     c["twice"] = draw(st.sampled_from([False, False, False, True]))     # differentiate the same graph a second time
+    c["extend"] = draw(st.integers(0, 3)) == 0     # grow the graph above the root, seed with the root's live .grad
     if op.multi:
         c["oi"] = draw(st.integers(0, 7))
     return c
